@@ -492,3 +492,58 @@ func init() {
 		absSigs:      map[string]string{"isPrint": "Int → Bool", "isSpace": "Int → Bool", "quote": "Bytes → Bytes", "goVersionRE": "Bytes → Bool", "toolchainRE": "Bytes → Bool"},
 	})
 }
+
+// The DIRECTIVE layer of modfile (rule.go parseToFile / File.add / WorkFile.add / parseReplace / parseVersionInterval / fixRetract,
+// work.go ParseWork): from the syntax graph (heap) to the typed file.  Token slices that alias a Line's tokens are VIEWS.
+func init() {
+	fns := []string{"MustQuote", "AutoQuote", "IsDirectoryPath", "isIndirect", "parseString", "parseVersion", "parseVersionInterval", "modulePathMajor",
+		"parseDirectiveComment", "parseDeprecation", "parseReplace", "File.add", "File.fixRetract", "WorkFile.add", "parseToFile", "ParseWork"}
+	wf := map[string]string{}
+	for _, n := range fns[3:] {
+		if n != "modulePathMajor" {
+			wf[n] = "Heap"
+		}
+	}
+	g2lUnits = append(g2lUnits, &g2lUnit{
+		out: "FnRule", ns: "Rule", pkgDir: "modfile",
+		imports: []string{"ModVerif.Basic.GoRtUtf8", "ModVerif.Basic.GoRtStrings", "ModVerif.Basic.GoRtHeap", "ModVerif.Basic.GoRtZipIO", "ModVerif.Basic.GoRtEdit", "ModVerif.Basic.GoRtNote", "ModVerif.Basic.GoRtRule", "ModVerif.Generated.FnSemver", "ModVerif.Generated.FnModule"},
+		structNames: []string{"Position", "Comment", "Comments", "CommentBlock", "LParen", "RParen", "Line", "LineBlock", "Expr", "FileSyntax",
+			"VersionInterval", "Module", "Go", "Toolchain", "Godebug", "Require", "Exclude", "Replace", "Retract", "Tool", "File", "Use", "WorkFile", "Error"},
+		sumTypes:  map[string][]string{"Expr": {"CommentBlock", "LParen", "RParen", "Line", "LineBlock", "FileSyntax"}},
+		sumNil:    map[string]bool{"Expr": true},
+		heapTypes: map[string]string{"CommentBlock": "cbs", "Line": "lines", "LineBlock": "blocks", "FileSyntax": "files", "Module": "modules", "Go": "gos", "Toolchain": "toolchains",
+			"Godebug": "godebugs", "Require": "requires", "Exclude": "excludes", "Replace": "replaces", "Retract": "retracts", "Tool": "tools", "File": "mods",
+			"Use": "uses", "WorkFile": "works", "Error": "errors"},
+		interior:     map[string]string{"LParen": "LineBlock.LParen", "RParen": "LineBlock.RParen"},
+		ownerPtr:     map[string]string{"Comments": "Expr"},
+		ownerCalls:   map[string]bool{"Comment": true},
+		foreignTypes: map[string]string{"module.Version": "ModVersion"},
+		fns:          fns,
+		worldFns:     wf,
+		inout:        map[string]string{"parseString": "s", "parseVersion": "s", "parseVersionInterval": "args", "File.add": "errs", "WorkFile.add": "errs", "File.fixRetract": "errs"},
+		viewVars: map[string]bool{"File.add.args": true, "WorkFile.add.args": true, "parseReplace.args": true, "parseVersionInterval.args": true,
+			"parseVersionInterval.toks": true, "File.fixRetract.args": true},
+		externs: map[string]string{"semver.Compare": "ModVerif.Generated.Semver.Compare", "semver.Major": "ModVerif.Generated.Semver.Major",
+			"module.SplitPathVersion": "ModVerif.Generated.Module.SplitPathVersion", "module.CanonicalVersion": "ModVerif.Generated.Module.CanonicalVersion",
+			"module.PathMajorPrefix": "ModVerif.Generated.Module.PathMajorPrefix", "module.CheckPathMajor": "ModVerif.Generated.Module.CheckPathMajor"},
+		externFx: map[string]bool{"semver.Compare": true, "semver.Major": true, "module.SplitPathVersion": true, "module.CanonicalVersion": true,
+			"module.PathMajorPrefix": true, "module.CheckPathMajor": true},
+		externFue: map[string]bool{"semver.Compare": true, "semver.Major": true, "module.SplitPathVersion": true, "module.CanonicalVersion": true,
+			"module.PathMajorPrefix": true, "module.CheckPathMajor": true},
+		absCalls: map[string]string{"GoVersionRE.MatchString": "goVersionRE", "ToolchainRE.MatchString": "toolchainRE",
+			"laxGoVersionRE.FindStringSubmatch": "laxGoVersionSub", "deprecatedRE.FindStringSubmatch": "deprecatedSub"},
+		anyType:    "Unit",
+		worldCalls: map[string]string{"parse": "parseSyn:M"},
+		exclude:     map[string]bool{"parse": true},
+		errConv:     map[string]string{"ErrorList": "errListErr"},
+		optFuncs:    map[string]string{"VersionFixer": "Bytes → Bytes → (Bytes × Option String)"},
+		valueIdents: map[string]string{"dontFixRetract": "(some dontFixRetract)"},
+		errStructs:  map[string]bool{"module.ModuleError": true},
+		preamble:    "/-- `var dontFixRetract VersionFixer = func(_, vers string) (string, error) { return vers, nil }` -/\ndef dontFixRetract : Bytes → Bytes → (Bytes × Option String) := fun _ vers => (vers, none)\n\n" +
+			"/-- an `ErrorList` as an `error` value: every entry with its position and its inner error, separated by U+0001 -/\ndef errListErr (l : List Error) : Option String :=\n  some (String.intercalate (String.singleton (Char.ofNat 1)) (l.map fun e => s!\"{e.Pos.Line},{e.Pos.LineRune},{e.Pos.Byte},{e.Err.getD \"\"}\"))\n\n",
+		absFuncs: map[string]string{"unicode.IsPrint": "isPrint", "unicode.IsSpace": "isSpace", "strconv.Quote": "quote", "strconv.Unquote": "unquote"},
+		absSigs: map[string]string{"isPrint": "Int → Bool", "isSpace": "Int → Bool", "quote": "Bytes → Bytes", "unquote": "Bytes → (Bytes × Option String)",
+			"goVersionRE": "Bytes → Bool", "toolchainRE": "Bytes → Bool", "laxGoVersionSub": "Bytes → List Bytes", "deprecatedSub": "Bytes → List Bytes",
+			"parseSyn": "Bytes → Bytes → Heap → M ((Int × Option String) × Heap)"},
+	})
+}
